@@ -114,7 +114,7 @@ def run(tier, seed):
     allc = {n: c for n, (c, _) in cfgs.items()}
     allc["directed"] = dcfg
     t0 = time.time()
-    budget = 240 if tier == "quick" else 3000
+    budget = 900 if tier == "quick" else 3000
     violations = []
     cov = {"families": {}}
     states = transitions = 0
